@@ -186,7 +186,7 @@ func (p *c19Probe) execBody(id int, item int, gated bool) error {
 	p.inflight++
 	p.mu.Unlock()
 	if gated {
-		<-p.gate
+		gateWait(p.gate)
 	}
 	p.mu.Lock()
 	p.inflight--
@@ -361,7 +361,7 @@ func c19Realise(batch bool, settings []Setting) c19Obs {
 				opts = append(opts, o)
 			}
 		}
-		b := flyt.NewBatchNode(opts...)
+		b := newBatchNode(opts)
 		for _, s := range settings {
 			if s.Form == "opt" && baseOpt(s) != nil {
 				continue
